@@ -23,7 +23,7 @@ histogram = base.histogram
 
 
 def gen(rng, tier):
-    n = 260 if tier == "quick" else 4000
+    n = 200 if tier == "quick" else 4000
     for _ in range(n):
         yield base.gen_case(rng, 12, tier)
 
